@@ -88,7 +88,7 @@ Definition tp_skipto_us (ks : list kind) (c : cursor) : cursor :=               
 Definition tp_next_table (ks : list kind) (c : cursor) : cursor * option kind :=
   match tp_skipto_us ks c with
   | CAt j SI => (CAt j SH, kind_at ks j)         (* intro line found, blank skipped, header peeked *)
-  | CAt j s => (CAt j SR, None)                  (* the underline was taken for an intro: a data row is no header *)
+  | CAt j _ => (CAt j SR, None)                  (* the underline was taken for an intro: a data row is no header *)
   | c' => (c', None)
   end.
 Definition tp_name (k : option kind) (nelt : Z) : name * Z :=
@@ -99,20 +99,26 @@ Definition tp_name (k : option kind) (nelt : Z) : name * Z :=
   | Some KG => (Some n_generation, nelt)
   | _ => (None, nelt)
   end.
-Fixpoint tp_loop (fuel : nat) (ks : list kind) (target : str) (c : cursor) (tn : name) (nelt : Z) : res cursor :=
-  if name_eqb tn (Some target) then Ok c else                                   (* while tname != tablename: *)
+(** [fx]: which skip_to_table_TOUGHplus the repository has.  false = the code as found (the caller's
+    element-table counter arrives by value and the callee's increments are lost; a '_____' skip
+    whenever the current table is primary); true = the repaired one of proposed_fixes/C06-*.diff
+    (the counter lives in the reader and survives between calls; no '_____' skip when the rows of
+    primary have just been read).  The harness picks the variant the code under test shows. *)
+Fixpoint tp_loop (fuel : nat) (ks : list kind) (target : str) (c : cursor) (tn : name) (nelt : Z) (inrows : bool) : res (cursor * Z) :=
+  if name_eqb tn (Some target) then Ok (c, nelt) else                           (* while tname != tablename: *)
   match fuel with
   | O => Raise OutOfFuel
   | S f =>
-      let c1 := if name_eqb tn (Some n_primary) then tp_skipto_us ks c else tp_skipto_at ks c in
+      let c1 := if name_eqb tn (Some n_primary) then (if inrows then c else tp_skipto_us ks c) else tp_skipto_at ks c in
       let (c2, k) := tp_next_table ks c1 in
       let (tn', nelt') := tp_name k nelt in
-      tp_loop f ks target c2 tn' nelt'
+      tp_loop f ks target c2 tn' nelt' false
   end.
-Definition tp_skip_to_table (fuel : nat) (ks : list kind) (target : str) (last : name) (nelt : Z) (c : cursor) : res cursor :=
+(** returns the cursor and the callee's final counter (which only the repaired code keeps) *)
+Definition tp_skip_to_table (fx : bool) (fuel : nat) (ks : list kind) (target : str) (last : name) (nelt : Z) (c : cursor) : res (cursor * Z) :=
   match last with
-  | None => tp_loop fuel ks target (step_to ks 0 SH) (Some n_element) 0         (* skipto('=====',0); skip_to_nonblank; nelt_tables = 0 *)
-  | Some l => tp_loop fuel ks target c (Some l) nelt                            (* nelt_tables: the caller's value (passed by value) *)
+  | None => tp_loop fuel ks target (step_to ks 0 SH) (Some n_element) 0 false   (* skipto('=====',0); skip_to_nonblank; nelt_tables = 0 *)
+  | Some l => tp_loop fuel ks target c (Some l) nelt fx                         (* as found: nelt_tables is the caller's value *)
   end.
 
 (** *** TOUGH2: every table ends with '@@@@@'; later tables are preceded by a KCYC/ITER line *)
@@ -190,7 +196,7 @@ Definition aut_skip_to_table (fuel : nat) (sets : list pset) (short_first : kind
   match c' with GOff => spin fuel | _ => Ok c' end.
 
 (** ** the history scan *)
-Record hfile := { hsim : sim; hshort_types : list kind; hsets : list pset }.
+Record hfile := { hsim : sim; hfix : bool; hshort_types : list kind; hsets : list pset }.
 
 (** one landing: position scanned, and where the rows were actually read (position, table index) *)
 Record landing := { l_pos : nat; l_at : nat * nat }.
@@ -214,13 +220,25 @@ Fixpoint scan_tables (fuel : nat) (F : hfile) (a : nat) (ks : list kind) (is_sho
                 | Ok r => Ok ((t, {| l_pos := a; l_at := at_ |}) :: r)
                 end
             end
-        | _ =>
-            match (match hsim F with TP => tp_skip_to_table fuel ks t last nelt c | _ => t2_skip_to_table fuel ks t last c end) with
+        | T2 =>
+            match t2_skip_to_table fuel ks t last c with
             | Raise e => Raise e
             | Ok c' =>
                 let j := match c' with CAt j _ => j | _ => 0%nat end in
                 (* skip_to_results_line; readline ... : now inside the rows *)
                 match scan_tables fuel F a ks is_short rest (Some t) (if starts_element t then nelt + 1 else nelt) (CAt j SR) g with
+                | Raise e => Raise e
+                | Ok r => Ok ((t, {| l_pos := a; l_at := (a, j) |}) :: r)
+                end
+            end
+        | TP =>
+            match tp_skip_to_table (hfix F) fuel ks t last nelt c with
+            | Raise e => Raise e
+            | Ok (c', n') =>
+                let j := match c' with CAt j _ => j | _ => 0%nat end in
+                (* as found: history's own counter counts the selected element tables; repaired: the reader's counter *)
+                let nelt2 := if hfix F then n' else (if starts_element t then nelt + 1 else nelt) in
+                match scan_tables fuel F a ks is_short rest (Some t) nelt2 (CAt j SR) g with
                 | Raise e => Raise e
                 | Ok r => Ok ((t, {| l_pos := a; l_at := (a, j) |}) :: r)
                 end
